@@ -22,11 +22,14 @@ class Skip(Exception):
 
 
 class Obl:
-    __slots__ = ("name", "idx", "kind", "claim", "trivial", "info", "lhs", "rhs")
+    __slots__ = ("name", "idx", "kind", "claim", "trivial", "info", "lhs", "rhs", "snap")
 
     def __init__(self, name, idx, kind, claim, trivial=None, info=None, lhs=None, rhs=None):
         self.name, self.idx, self.kind, self.claim = name, idx, kind, claim
         self.trivial, self.info, self.lhs, self.rhs = trivial, info, lhs, rhs
+        # the context in force when the obligation was stated (assumptions are not retroactive,
+        # and denominators registered later do not constrain it)
+        self.snap = (len(CTX.assumes), len(CTX.axioms), len(CTX.path), len(CTX.dens))
 
 
 def _flat(a):
@@ -368,3 +371,68 @@ def _arr_float(self, x):
 
 SymH.arr = _arr_sym
 FloatH.arr = _arr_float
+
+
+# ---- rotation-vector input by the polynomial cone parametrisation
+def _cone_sym(self, prefix, chart="lt_pi", mirror=False, upper=None):
+    """psi = lam (2p, 2q, 1-p^2-q^2) (mirror: z negated), |psi| = lam (1+p^2+q^2) =: a, lam >= 0.
+    chart: 'lt_pi'   0 <= a < PI   (w = tan(a/2) >= 0, w = 0 iff a = 0)
+           'gt_pi'   PI < a < 2 PI (w < 0)
+           'free'    no range facts
+    upper: optional extra strict upper bound on a (python float, e.g. np.pi the double)"""
+    lam = core.var(prefix + "_lam", kind="nonneg")
+    p = core.var(prefix + "_p")
+    q = core.var(prefix + "_q")
+    CTX.assumes.append(lam.v.n >= 0)
+    return _cone_build_sym(self, lam, p, q, chart, mirror, upper)
+
+
+def _cone_build_sym(self, lam, p, q, chart="lt_pi", mirror=False, upper=None, register=True):
+    one = S(1)
+    a = lam * (one + p * p + q * q)
+    z = lam * (one - p * p - q * q)
+    psi = np.array([lam * 2 * p, lam * 2 * q, -z if mirror else z], dtype=object)
+    if register:
+        A = S(a.v)
+        CTX.sqrt_hints.append(A)
+        kind, w = A._w()
+        PI = core.PI
+        CTX.axioms.extend(core.pi_axioms())
+        an = core.term(a.v.n)
+        if chart == "lt_pi":
+            CTX.assumes += [an < PI, w >= 0, (w == 0) == (an == 0)]
+            CTX.sqrt_hints.append(A.sin())      # sqrt(1 - cos^2) = sin >= 0 on [0, pi]
+        elif chart == "gt_pi":
+            CTX.assumes += [an > PI, an < 2 * PI, w < 0]
+        if upper is not None:
+            CTX.assumes.append(an < core.term(core.const(upper)))
+    return psi, a
+
+
+def _cone_float(self, prefix, chart="lt_pi", mirror=False, upper=None):
+    lam = float(self._get(prefix + "_lam", 1.0))
+    p = float(self._get(prefix + "_p"))
+    q = float(self._get(prefix + "_q"))
+    if lam < 0:
+        self.assumption_failed.append("lam >= 0")
+    return _cone_build_float(self, lam, p, q, chart, mirror, upper)
+
+
+def _cone_build_float(self, lam, p, q, chart="lt_pi", mirror=False, upper=None, register=True):
+    a = lam * (1 + p * p + q * q)
+    z = lam * (1 - p * p - q * q)
+    psi = np.array([lam * 2 * p, lam * 2 * q, -z if mirror else z], dtype=float)
+    if register:
+        if chart == "lt_pi" and not (a < math.pi):
+            self.assumption_failed.append("angle < pi")
+        if chart == "gt_pi" and not (math.pi < a < 2 * math.pi):
+            self.assumption_failed.append("pi < angle < 2 pi")
+        if upper is not None and not (a < upper):
+            self.assumption_failed.append("angle < upper")
+    return psi, a
+
+
+SymH.cone = _cone_sym
+FloatH.cone = _cone_float
+SymH.cone_build = _cone_build_sym
+FloatH.cone_build = _cone_build_float
